@@ -89,6 +89,7 @@ type session struct {
 	paused    int32
 	paceState uint64
 	w         *fsnotify.Watcher
+	maxWd     uint32 // the largest descriptor this instance has been seen to hand out (kernel-contract monitor)
 	realFd    int
 	injectFd  int
 	obs       *observed
@@ -410,6 +411,9 @@ func (s *session) opAdd(r *rec, arg string, ops uint32, noFollow bool) {
 	before := map[uint32]bool{}
 	for _, m := range readFdinfo(s.realFd) {
 		before[m.wd] = true
+		if m.wd > s.maxWd {
+			s.maxWd = m.wd
+		}
 	}
 	// the flags of an existing entry are OR-ed in by register(): IN_DONT_FOLLOW is sticky
 	effNoFollow := noFollow
@@ -436,6 +440,14 @@ func (s *session) opAdd(r *rec, arg string, ops uint32, noFollow bool) {
 			}
 		}
 		if len(fresh) == 1 {
+			// kernel contract of Model/Kernel (joint model of C12): a fresh mark gets a descriptor above
+			// every descriptor this instance has handed out so far (idr_alloc_cyclic), never a recycled one
+			if fresh[0] <= s.maxWd && s.report != nil {
+				s.report("C12", "C12:kernel-contract:fresh-wd-not-ascending", fmt.Sprintf("inotify_add_watch answered the fresh descriptor %d although %d had been handed out before", fresh[0], s.maxWd), map[string]interface{}{"op": arg})
+			}
+			if fresh[0] > s.maxWd {
+				s.maxWd = fresh[0]
+			}
 			k = fmt.Sprintf("wd:%d", fresh[0])
 		} else if wd, ok := s.wdOf(filepath.Clean(arg), effNoFollow); ok {
 			k = fmt.Sprintf("wd:%d", wd)
